@@ -158,6 +158,12 @@ fn judge_vector(case: &Case, c: &Constraints, row: usize, v: &[f64; 6], fails: &
             all_yes = false;
             continue;
         }
+        // the limits the object actually holds may have collapsed to from == to (or a zero-width
+        // arc) on the way through a constructor that converts units: outside the property's domain
+        if degenerate(case.from[j], case.to[j]) {
+            all_yes = false;
+            continue;
+        }
         match oracle::on_arc(v[j], case.from[j], case.to[j], 1e-9) {
             Tri::Yes => {}
             Tri::DontCare => all_yes = false,
@@ -257,6 +263,10 @@ pub fn judge(case: &Case) -> Vec<Fail> {
 fn judge_vector_noidx(case: &Case, c: &Constraints, v: &[f64; 6], fails: &mut Vec<Fail>) {
     let mut all_yes = true;
     for j in 0..6 {
+        if degenerate(case.from[j], case.to[j]) {
+            all_yes = false;
+            continue;
+        }
         match if v[j].is_finite() { oracle::on_arc(v[j], case.from[j], case.to[j], 1e-9) } else { Tri::No } {
             Tri::Yes => {}
             Tri::DontCare => all_yes = false,
